@@ -24,6 +24,7 @@ impl From<u16> for PodU16 { fn from(v: u16) -> (r: PodU16) { PodU16(v) } }
 
 //@ root glob:~/.cargo/registry/src/*/spl-token-2022-8.0.1/src
 //@ const extension/transfer_fee/mod.rs MAX_FEE_BASIS_POINTS ONE_IN_BASIS_POINTS
+#[derive(Clone, Copy)]
 pub struct TransferFee {
     pub epoch: PodU64,
     pub maximum_fee: PodU64,
@@ -54,6 +55,17 @@ impl TransferFee {
 //@ fn extension/transfer_fee/mod.rs calculate_inverse_fee in=/^impl TransferFee \{/ -> r
     requires self.wf(),
     ensures r matches Some(f) ==> exists|p: int| post_fee_amount <= p <= U64MAX() && f as int == #[trigger] self.fee(p),
+//@ end
+}
+//@ assume TransferFeeConfig is reduced to its two fee schedules (the authorities and the withheld amount are not read by the whirlpool program)
+pub type Epoch = u64;
+pub struct TransferFeeConfig { pub older_transfer_fee: TransferFee, pub newer_transfer_fee: TransferFee }
+impl TransferFeeConfig {
+    pub open spec fn wf(&self) -> bool { self.older_transfer_fee.wf() && self.newer_transfer_fee.wf() }
+    /// the schedule in force in `epoch`: the newer one from its epoch on, the older one before
+    pub open spec fn in_force(&self, epoch: u64) -> TransferFee { if epoch >= self.newer_transfer_fee.epoch.0 { self.newer_transfer_fee } else { self.older_transfer_fee } }
+//@ fn extension/transfer_fee/mod.rs get_epoch_fee in=/^impl TransferFeeConfig \{/ -> r
+    ensures *r == self.in_force(epoch),
 //@ end
 }
 pub proof fn lemma_ceil_add(n: int, d: int)
@@ -93,12 +105,48 @@ use crate::spl_transfer_fee::*;
 //@ tags C16
 //@ root programs/whirlpool/src
 //@ struct util/v2/token.rs TransferFeeIncludedAmount TransferFeeExcludedAmount
-//@ assume get_epoch_transfer_fee (TLV unpack + Clock sysvar) is an external stub: it returns an arbitrary fee schedule whose basis points are <= 10_000 (enforced by the Token-2022 program)
-pub struct Mint { pub decimals: u8 }
-#[verifier::external_body]
-pub fn get_epoch_transfer_fee(token_mint: &InterfaceAccount<'_, Mint>) -> (r: Result<Option<TransferFee>>)
-    ensures r matches Ok(Some(f)) ==> f.wf(),
-{ unimplemented!() }
+//@ assume get_epoch_transfer_fee: the Solana / SPL glue it calls is a set of shims - the mint account carries its owning program and (if present) its transfer-fee config, `to_account_info().owner`, `try_borrow_data`, `StateWithExtensions::unpack` and `get_extension::<TransferFeeConfig>()` (rewritten, logged, to get_transfer_fee_config()) hand these out unchanged, a stored config is well formed (basis points <= 10_000, enforced by the Token-2022 program), `Clock::get()` yields current_epoch(); TransferFeeConfig::get_epoch_fee is the dependency's real code
+pub struct Mint { pub decimals: u8, pub owner_program: Pubkey, pub fee_config: Option<TransferFeeConfig> }
+pub struct MintAccountInfo<'a> { pub owner: &'a Pubkey, pub fee_config: &'a Option<TransferFeeConfig> }
+pub struct MintData<'a> { pub fee_config: &'a Option<TransferFeeConfig> }
+pub struct MintUnpacked<'a> { pub fee_config: &'a Option<TransferFeeConfig> }
+pub uninterp spec fn token_program_id() -> Pubkey;
+pub struct Token {}
+impl Token { #[verifier::external_body] pub fn id() -> (r: Pubkey) ensures r == token_program_id() { unimplemented!() } }
+impl<'a> InterfaceAccount<'a, Mint> {
+    pub fn to_account_info(&self) -> (r: MintAccountInfo<'_>) ensures *r.owner == self.data.owner_program, *r.fee_config == self.data.fee_config { MintAccountInfo { owner: &self.data.owner_program, fee_config: &self.data.fee_config } }
+}
+impl<'a> MintAccountInfo<'a> {
+    #[verifier::external_body]
+    pub fn try_borrow_data(&self) -> (r: Result<MintData<'a>>) ensures r matches Ok(d) ==> *d.fee_config == *self.fee_config { unimplemented!() }
+}
+pub mod spl_token_2022 { pub mod state { pub struct Mint {} } }
+pub struct StateWithExtensions<T> { pub t: core::marker::PhantomData<T> }
+impl<T> StateWithExtensions<T> {
+    #[verifier::external_body]
+    pub fn unpack<'a>(d: &MintData<'a>) -> (r: Result<MintUnpacked<'a>>) ensures r matches Ok(u) ==> *u.fee_config == *d.fee_config { unimplemented!() }
+}
+impl<'a> MintUnpacked<'a> {
+    #[verifier::external_body]
+    pub fn get_transfer_fee_config(&self) -> (r: core::result::Result<&'a TransferFeeConfig, ()>)
+        ensures match *self.fee_config { Some(c) => r matches Ok(rc) && *rc == c && c.wf(), None => r is Err }
+    { unimplemented!() }
+}
+pub struct ClockData { pub epoch: u64 }
+pub uninterp spec fn current_epoch() -> u64;
+pub struct Clock {}
+impl Clock {
+    #[verifier::external_body]
+    pub fn get() -> (r: Result<ClockData>) ensures r matches Ok(c) ==> c.epoch == current_epoch() { unimplemented!() }
+}
+/// C16: the schedule applied is the one in force in the current epoch (none for a plain SPL-token mint or a mint without the extension)
+//@ fn util/v2/token.rs get_epoch_transfer_fee -> r
+    ensures
+        token_mint.data.owner_program == token_program_id() ==> r matches Ok(None),
+        r matches Ok(Some(f)) ==> f.wf() && (token_mint.data.fee_config matches Some(c) && f == c.in_force(current_epoch())),
+        r matches Ok(None) ==> token_mint.data.owner_program == token_program_id() || token_mint.data.fee_config is None,
+//@ rewrite /token_mint_unpacked\.get_extension::<extension::transfer_fee::TransferFeeConfig>\(\)/ => /token_mint_unpacked.get_transfer_fee_config()/
+//@ end
 
 //@ fn util/v2/token.rs calculate_transfer_fee_excluded_amount -> r
     ensures
